@@ -13,6 +13,7 @@ LOOP_COQ_FILES = ["Bytes.v", "ParserModel.v", "BuilderModel.v", "ConnModel.v", "
                   "LoopModel.v", "ServerModel.v", "CallerModel.v", "LoopProofs.v", "LoopSpec.v", "LoopSpecProofs.v"]
 # C01 / C04 / C05 also state the refinement theorems (executable system -> abstract system)
 REFINE_COQ_FILES = ["DriverLoop.v", "Grammar.v", "ParserProofs.v", "ConnProofs.v", "RoundTripProofs.v", "LoopRefine.v", "LoopRefineProofs.v"]
+CANCEL_COQ_FILES = ["LoopCancel.v", "LoopCancelProofs.v"]
 
 SUBSYSTEMS = ["database", "update", "stored_playlist", "playlist", "player", "mixer", "output", "options", "partition",
               "sticker", "subscription", "message", "neighbor", "mount", "fingerprint", "Player", "x-y_z",
@@ -324,21 +325,30 @@ def gen_session(rng, n_steps, faults=False, cancel=True, with_drop=False, pauses
     return labels, info, rid
 
 
-def gen_fragment_session(rng, n_steps, tricky=True):
-    """A random schedule inside the fragment of the refinement theorems (Props/C05.v c05_exec_refines): single echo requests
-    (plain words, arguments that need quoting, non-ASCII), changes, server reads, deliveries of any size, clock advances.
+def gen_fragment_session(rng, n_steps, tricky=True, cancels=False):
+    """A random schedule inside the fragment of the refinement theorems (Props/C05.v c05_exec_refines): single requests
+    (plain words, arguments that need quoting, non-ASCII; ACK and binary replies) and command lists of 1..5 of them, changes, server reads, deliveries of any size, clock advances.
+    With [cancels]: callers give up (x<id>) at random later points — in flight, queued, after the answer —, which puts the schedule
+    in the domain of the erasure theorem (Props/C01.v c01_exec_cancel_session) instead.
     -> (labels, info, number of requests)"""
     labels = ["D0"]
     info = {"requests": {}, "cancelled": set(), "notified": [], "fault": None, "dropped": False}
     rid = 0
+    to_cancel = []
     words = ["status", "stats", "currentsong", "echo", "ping", "play", "next", "outputs", "playlistinfo", "lsinfo"]
     args = ["a", "x y", "it's", 'say "hi"', "back\\slash", "\u00e4\u00f6", "\u65e5\u672c", "", "tab\there", "OK", "list_OK", "ACK [5@0] {} x", "binary: 3", "idle x"]
     if not tricky:
         args = ["a", "b1", "OK", "list_OK", "idle", "noidle", "x-y_z", "0"]      # no quoting needed: the echoed line is name + arguments
     for _ in range(n_steps):
         r = rng.random()
+        if cancels and to_cancel and rng.random() < 0.25:
+            victim = to_cancel.pop(rng.randrange(len(to_cancel)))
+            labels.append(f"x{victim}")
+            info["cancelled"].add(victim)
         if r < 0.30:
             rid += 1
+            if cancels and rng.random() < 0.4:
+                to_cancel.append(rid)
             r2 = rng.random()
             if r2 < 0.12:
                 sp = spec("fail", str(rng.choice([1, 2, 5, 50])), f"r{rid}")          # an ACK reply
@@ -348,6 +358,22 @@ def gen_fragment_session(rng, n_steps, tricky=True):
                 sp = spec(rng.choice(words), *[rng.choice(args) for _ in range(rng.choice([0, 0, 1, 2]))])
             else:
                 sp = spec("echo", f"r{rid}")
+            if rng.random() < 0.3:
+                # a command list (sent as one request; the server reads it line by line): 1..5 commands, some failing, some binary
+                sps = []
+                for j in range(rng.choice([1, 2, 2, 3, 5])):
+                    r3 = rng.random()
+                    if r3 < 0.12:
+                        sps.append(spec("fail", str(rng.choice([1, 2, 5, 50])), f"r{rid}_{j}"))
+                    elif r3 < 0.22:
+                        sps.append(spec("bin", str(rng.choice([0, 1, 3, 20])), f"r{rid}_{j}"))
+                    elif r3 < 0.6:
+                        sps.append(spec(rng.choice(words), *[rng.choice(args) for _ in range(rng.choice([0, 1, 2]))]))
+                    else:
+                        sps.append(spec("echo", f"r{rid}_{j}"))
+                labels.append(f"i{rid}:" + ",".join(sps))
+                info["requests"][rid] = ("i", sps)
+                continue
             labels.append(f"c{rid}:{sp}")
             info["requests"][rid] = ("c", [sp])
         elif r < 0.44:
@@ -370,7 +396,11 @@ def fragment_membership(ctx, scheds):
     inside = sum(1 for o in outs if o == "in")
     why = {}
     for o in outs:
-        if o != "in":
+        if o == "in+x":
+            why["(with cancellations: erasure theorem + refinement)"] = why.get("(with cancellations: erasure theorem + refinement)", 0) + 1
+        elif o.startswith("x-ok:"):
+            why["(with cancellations: erasure theorem only)"] = why.get("(with cancellations: erasure theorem only)", 0) + 1
+        elif o != "in":
             k = o[4:5] if o.startswith("out:") and len(o) > 4 and o[4:] not in ("password", "first-label", "short") else o[4:]
             why[k] = why.get(k, 0) + 1
     return inside, why
